@@ -22,8 +22,16 @@ import GmqttVerif.Model.Fed.PeerSession
     reconnect opens  `initStream`: Hello processed by R and its answer processed by S; `opens = false`: `client.EventStream`
                      then fails (break between handshake and stream)
     helloLost        R processes Hello but the response never reaches S (break DURING the handshake)
+    helloFail        the Hello never reaches R (connection refused / lost request)
     peerRestart      R loses its session and S's entries of the federation tree (process restart, or nodeFail on R)
     senderRestart    S restarts / re-creates the peer: new session id, empty queue
+
+  Two variants, selected by `fixed : Bool`:
+    fixed = true   the code since 086aedd: `peer.synced` / `peer.ackFloor` — a failed Hello while no clean start has been
+                   completed with the current session id replaces the id by a fresh one; an answer `clean_start=false` whose
+                   `next_event_id` lies below an already acknowledged id is treated as a clean start; `readLoop` records
+                   `ackFloor = acked id + 1`.
+    fixed = false  the code before that commit (kept for the refutations `…_as_is_refuted`): none of the above.
 
   Ghost state: `hist` = bodies added to the queue since its last `clear` (event id i ↔ `hist[i]`),
                `applied` = bodies R applied since its session was created.
@@ -50,6 +58,8 @@ structure Sender (τ μ : Type) where
   q        : EQ (PBody τ μ)
   topics   : List τ            -- keys of `localSubStore.topics`
   retained : List μ            -- S's retained store
+  synced   : Bool              -- `peer.synced`: a clean start has been completed with the current session id
+  ackFloor : Nat               -- `peer.ackFloor`: id after the highest event acknowledged in the current session
   hist     : List (PBody τ μ)  -- ghost
 
 structure Receiver (τ μ : Type) where
@@ -77,6 +87,7 @@ inductive Label (τ μ : Type)
   | brk
   | reconnect (opens : Bool)
   | helloLost
+  | helloFail
   | peerRestart
   | senderRestart (topics : List τ) (retained : List μ)
   deriving Repr
@@ -84,7 +95,7 @@ inductive Label (τ μ : Type)
 variable {τ μ : Type} [DecidableEq τ]
 
 def init (topics : List τ) (retained : List μ) : St τ μ :=
-  { s := { sid := 0, q := EQ.empty, topics := topics, retained := retained, hist := [] }
+  { s := { sid := 0, q := EQ.empty, topics := topics, retained := retained, synced := false, ackFloor := 0, hist := [] }
     r := { sess := none, subs := [], pubs := [], applied := [] }
     c := { up := [], down := [], isOpen := false } }
 
@@ -105,13 +116,22 @@ def helloR (cap : Nat) (r : Receiver τ μ) (sid : Nat) : Receiver τ μ × Bool
     else ({ r with sess := some { id := sid, next := 0, seen := { items := [], size := cap } }, subs := [], applied := [] }, true, 0)
   | none => ({ r with sess := some { id := sid, next := 0, seen := { items := [], size := cap } }, subs := [], applied := [] }, true, 0)
 
-/-- the client half of `initStream` after the ServerHello arrived -/
-def helloS (s : Sender τ μ) (clean : Bool) (next : Nat) : Sender τ μ :=
+/-- the client half of `initStream` after the ServerHello arrived; `clean` = the client's decision, `pos` = the id it
+    positions the queue at -/
+def helloS (s : Sender τ μ) (clean : Bool) (pos : Nat) : Sender τ μ :=
   let s1 := if clean then
       let bs := syncBodies s.topics s.retained
-      { s with q := addAll s.q.clear bs, hist := bs }
+      { s with q := addAll s.q.clear bs, hist := bs, synced := true, ackFloor := 0 }
     else s
-  { s1 with q := s1.q.setReadPosition next }
+  { s1 with q := s1.q.setReadPosition pos }
+
+/-- the client's clean-start decision: the server's, or (since 086aedd) a `next_event_id` below an acknowledged id -/
+def cleanDecision (fixed : Bool) (s : Sender τ μ) (clean : Bool) (next : Nat) : Bool :=
+  clean || (fixed && decide (next < s.ackFloor))
+
+/-- a Hello that failed (since 086aedd): fresh session id unless a clean start has been completed with the current one -/
+def helloErr (fixed : Bool) (s : Sender τ μ) : Sender τ μ :=
+  if fixed && !s.synced then { s with sid := s.sid + 1 } else s
 
 /-- the non-duplicate branch of `eventStreamHandler` -/
 def applyR (r : Receiver τ μ) (b : PBody τ μ) : Receiver τ μ :=
@@ -121,7 +141,7 @@ def applyR (r : Receiver τ μ) (b : PBody τ μ) : Receiver τ μ :=
   | _ => r1
 
 /-- one environment step; `none` = the step is not possible in this state -/
-def step (cap : Nat) (st : St τ μ) : Label τ μ → Option (St τ μ)
+def step (fixed : Bool) (cap : Nat) (st : St τ μ) : Label τ μ → Option (St τ μ)
   | .emit b =>
     some { st with s := { st.s with q := (st.s.q.add b).1, hist := st.s.hist ++ [b], topics := applyView st.s.topics b } }
   | .setRetained ms => some { st with s := { st.s with retained := ms } }
@@ -146,7 +166,8 @@ def step (cap : Nat) (st : St τ μ) : Label τ μ → Option (St τ μ)
   | .deliverAck =>
     if st.c.isOpen then
       match st.c.down with
-      | id :: down' => some { st with s := { st.s with q := st.s.q.ack id }, c := { st.c with down := down' } }
+      | id :: down' =>
+        some { st with s := { st.s with q := st.s.q.ack id, ackFloor := id + 1 }, c := { st.c with down := down' } }
       | [] => none
     else none
   | .brk => some { st with s := { st.s with q := st.s.q.close }, c := Chan.broken }
@@ -154,26 +175,35 @@ def step (cap : Nat) (st : St τ μ) : Label τ μ → Option (St τ μ)
     if st.c.isOpen then none
     else
       let (r', clean, next) := helloR cap st.r st.s.sid
-      let s' := helloS st.s clean next
+      let clean' := cleanDecision fixed st.s clean next
+      let s' := helloS st.s clean' (if clean' then 0 else next)
       if opens then some { s := { s' with q := s'.q.open }, r := r', c := { up := [], down := [], isOpen := true } }
       else some { s := s', r := r', c := Chan.broken }
   | .helloLost =>
     if st.c.isOpen then none
-    else some { st with r := (helloR cap st.r st.s.sid).1 }
+    else some { st with r := (helloR cap st.r st.s.sid).1, s := helloErr fixed st.s }
+  | .helloFail =>
+    if st.c.isOpen then none
+    else some { st with s := helloErr fixed st.s }
   | .peerRestart =>
     some { s := { st.s with q := st.s.q.close }, r := { sess := none, subs := [], pubs := st.r.pubs, applied := [] }, c := Chan.broken }
   | .senderRestart ts ms =>
-    some { s := { sid := st.s.sid + 1, q := EQ.empty, topics := ts, retained := ms, hist := [] }, r := st.r, c := Chan.broken }
+    some { s := { sid := st.s.sid + 1, q := EQ.empty, topics := ts, retained := ms, synced := false, ackFloor := 0, hist := [] },
+           r := st.r, c := Chan.broken }
 
 /-- run a schedule -/
-def run (cap : Nat) : List (Label τ μ) → St τ μ → Option (St τ μ)
+def run (fixed : Bool) (cap : Nat) : List (Label τ μ) → St τ μ → Option (St τ μ)
   | [], st => some st
-  | l :: ls, st => match step cap st l with
-    | some st' => run cap ls st'
+  | l :: ls, st => match step fixed cap st l with
+    | some st' => run fixed cap ls st'
     | none => none
 
-/-- R's session belongs to S's current queue epoch -/
+/-- R's session carries S's current session id -/
 def Aligned (st : St τ μ) : Prop := ∃ ss, st.r.sess = some ss ∧ ss.id = st.s.sid
+
+/-- …and R's `nextEventID` is not behind what S has seen acknowledged: the session R holds is the one S's queue belongs to
+    (false exactly between a Hello that re-created R's session without S noticing and S's next successful Hello) -/
+def InSession (st : St τ μ) : Prop := ∃ ss, st.r.sess = some ss ∧ ss.id = st.s.sid ∧ st.s.ackFloor ≤ ss.next
 
 /-- nothing in flight, nothing left to send, stream up -/
 def Quiescent (st : St τ μ) : Prop :=
